@@ -129,14 +129,18 @@ def main(argv=None):
             obligations.append(o)
     for o in extra.get("obligations", []):
         obligations.append(o)
+    import shutil
+    shutil.rmtree(os.path.join(VERIF, "replays", prop), ignore_errors=True)
     os.makedirs(os.path.join(VERIF, "replays", prop), exist_ok=True)
     unit_by_name = {r["unit"]: r for r in results}
-    for o in obligations:
-        if o["status"] == "PROVED":
-            continue
-        kf = [k for k in known if k.get("kind") == "finding" and k.get("obligation") == o["name"]]
-        # write replay file
-        import re as _re
+    failing = [o for o in obligations if o["status"] != "PROVED"]
+    failing.sort(key=lambda o: 0 if o["status"] == "REFUTED" else 1)
+    import re as _re
+    from concurrent.futures import ThreadPoolExecutor
+    REPLAY_CAP = int(os.environ.get("PYVC_REPLAY_CAP", "24"))
+    jobs = []
+    not_replayed = []
+    for k, o in enumerate(failing):
         safe = _re.sub(r"[^A-Za-z0-9._=-]+", "_", o["name"]).strip("_")
         rpath = os.path.join("replays", prop, safe + ".json")
         ur = unit_by_name.get(o.get("unit"), {})
@@ -147,25 +151,38 @@ def main(argv=None):
                "ledger_status": ledger.get(o["name"]), "repo": repo}
         with open(os.path.join(VERIF, rpath), "w") as f:
             json.dump(rec, f, indent=1, default=str)
-        rr = run_replay(os.path.join(VERIF, rpath)) if ur.get("qualname") or o.get("replayable") else {"ran": False, "error": "no replay harness"}
-        rec["replay_result"] = rr
-        with open(os.path.join(VERIF, rpath), "w") as f:
-            json.dump(rec, f, indent=1, default=str)
-        o["replay"] = rpath
-        o["replay_failed_on_real_code"] = bool(rr.get("failed"))
-        if kf:
-            # a listed finding: same obligation; the witness class is compared when the replay gives one
-            known_hits.append((o, kf[0]))
-            continue
-        if rr.get("failed"):
-            violations.append((o, rpath, ""))
-        elif o["status"] == "REFUTED":
-            violations.append((o, rpath, " no-failing-input-found"))
-        else:
-            if ledger.get(o["name"]) == "PROVED" and rr.get("ran") and rr.get("searched"):
-                undecided.append({"unit": o.get("unit"), "reason": f"obligation {o['name']} not proved (solver: unknown), no failing input in search"})
+        can = bool(ur.get("qualname") or o.get("replayable"))
+        jobs.append((o, rpath, rec, can and k < REPLAY_CAP, can))
+    with ThreadPoolExecutor(max_workers=min(12, max(1, len(jobs)))) as ex:
+        futs = [(j, ex.submit(run_replay, os.path.join(VERIF, j[1])) if j[3] else None) for j in jobs]
+        for (o, rpath, rec, do, can), fut in futs:
+            if fut is not None:
+                rr = fut.result()
+            elif can:
+                rr = {"ran": False, "error": f"replay not run: more than {REPLAY_CAP} failing obligations in this run (set PYVC_REPLAY_CAP)"}
             else:
-                undecided.append({"unit": o.get("unit"), "reason": f"obligation {o['name']} {o['status']}"})
+                rr = {"ran": False, "error": "no replay harness"}
+            rec["replay_result"] = rr
+            with open(os.path.join(VERIF, rpath), "w") as f:
+                json.dump(rec, f, indent=1, default=str)
+            o["replay"] = rpath
+            o["replay_failed_on_real_code"] = bool(rr.get("failed"))
+            kf = [k for k in known if k.get("kind") == "finding" and k.get("obligation") == o["name"]]
+            if kf:
+                # a listed finding: same obligation; the witness class is compared when the replay gives one
+                known_hits.append((o, kf[0]))
+                continue
+            if rr.get("failed"):
+                violations.append((o, rpath, ""))
+            elif fut is None and can:
+                not_replayed.append(o)
+            elif o["status"] == "REFUTED":
+                violations.append((o, rpath, " no-failing-input-found"))
+            else:
+                if ledger.get(o["name"]) == "PROVED" and rr.get("ran") and rr.get("searched"):
+                    undecided.append({"unit": o.get("unit"), "reason": f"obligation {o['name']} not proved (solver: unknown), no failing input in search"})
+                else:
+                    undecided.append({"unit": o.get("unit"), "reason": f"obligation {o['name']} {o['status']}"})
     # obligations that the ledger knows but that were not generated
     names = {o["name"] for o in obligations}
     missing = [n for n in ledger if n not in names] if not a.only else []
@@ -255,6 +272,10 @@ def main(argv=None):
     for o, rpath, suffix in violations:
         print(f"FAILED-OBLIGATION {o['name']} status={o['status']}")
         print(f"VIOLATION property={prop} replay={rpath}{suffix}")
+    for o in not_replayed[:40]:
+        print(f"FAILED-OBLIGATION {o['name']} status={o['status']} (replay not run: cap of {REPLAY_CAP} replays per run reached)")
+    if not_replayed and not violations:
+        undecided.append({"unit": "*", "reason": f"{len(not_replayed)} failing obligations were not replayed"})
     if n_ob == 0:
         print("CHECKER-FAULT zero obligations generated")
         return 3
